@@ -820,5 +820,15 @@ m('list-prefixes-do-not-count','C11','storage/gcsemu/walk.go',
 		}
 
 		if delimiter != "" {''','R78/','collapsed prefixes are not counted: a page can hold any number of them')
+# ---- C02 / R79: the recorded MD5 is the hash of the stored bytes
+m('upload-records-declared-md5','C02',GCS,
+  '''			return nil, fmtErrorfCode(http.StatusBadRequest, "md5 hash %s != expected %s", obj.Md5Hash, md5Hash)
+		}
+	}
+	obj.Md5Hash = md5Hash''','''			return nil, fmtErrorfCode(http.StatusBadRequest, "md5 hash %s != expected %s", obj.Md5Hash, md5Hash)
+		}
+		md5Hash = obj.Md5Hash // keep the client's spelling of the hash
+	}
+	obj.Md5Hash = md5Hash''','R79/','the recorded hash is whatever string the client declared')
 json.dump(M, open('/verif/mutants.json','w'), indent=1)
 print(len(M),'mutants')
